@@ -585,3 +585,6 @@ LEVEL_TEXT = ("Decides (a) the commitment structure of tx/witness/header/pow/scr
               "(e) every generated builder writes the canonical layout of its fields (encode side). The JSON text layer is outside.")
 LEVEL_NOTE = "Round trip decided at the layout level for all schema types within stated count bounds (<=1 extra field, <=2 vector items, field lengths < 2^28); JSON text and collision resistance not covered."
 TECHNIQUE = "symbolic execution of rustc MIR (dataflow) -> SMT, plus Kani/CBMC harnesses generated from the molecule schema"
+
+# ---- extended claim (session 3)
+LEVEL_TEXT = LEVEL_TEXT + " (f) JSON<->packed conversions of Script, CellOutput, OutPoint, CellInput, CellDep, Transaction, Header, UncleBlock, Block: every JSON field is computed from the same-named packed getter only and every builder setter receives the same-named JSON field only, each schema field set once; hash-type / dep-type enum conversions keep the discriminant. (g) cached hashes of views equal recomputation on the stored entity; reset_header_with_hashes / BlockView roots bind tx hashes then witness hashes, proposals, uncles (in order) and the extension (present even if empty). (h) the store's from_slice_should_be_ok helper is strict decoding."
